@@ -199,6 +199,43 @@ def consistentlyWound (ms : List Poly) : Bool :=
     let d := dirSign m.ext
     ms.all (fun p => dirSign p.ext == d && p.ints.all (fun h => dirSign h == -d))
 
+/-- **outside the property's domain**: a collection that is *not* consistently wound. The glue
+correspondence is checked as usual (paths, fill rule chosen from the first ring with a winding
+order, rebuilt polygons); the verdict is always PASS (the property says nothing here) and the tags
+record what the real code does: `region=fill-rule` when the result is, at every usable sample point,
+the Positive / Negative region of the *summed* winding numbers (`unaryUnion_inconsistent_*` in
+Props/C04.lean: members wound against the first ring are dropped or cut out), and whether that
+differs from the fold of pairwise unions. -/
+def handleUnaryMixed (u : Rat) (bs : List (Geom × List Poly)) (ms : List Poly) (out : List String) : String :=
+  let rs := ms.flatMap Poly.rings
+  let tagsBase := "mixed n=" ++ toString ms.length
+  if out == ["panic"] then reply false "FAIL:panic" tagsBase "no-panic" "panic" else
+  match P.run unaryOutP out with
+  | none => "ERR parse-output"
+  | some o =>
+    let E := recordedSingle o
+    let subjM := rs.map ringToShapePath
+    let modelRes := unaryUnion E (bs.map (·.2))
+    let same := o.subj == subjM && o.res == modelRes
+    let cls : String :=
+      match bbox (allCoords rs) with
+      | none => " triv"
+      | some bb =>
+        let tolA := areaTol bb rs
+        let tolD := distTol bb
+        let inSegs := rs.flatMap segs
+        let f := unaryFillRule rs
+        let located : List (Pt × Bool × Bool) := ((samplePoints bb u).filter (fun p => !nearSegs p inSegs tolD)).map
+          (fun p => (p, filled f (-(windRings p rs)), ms.any (fun m => insideSpec [m] p)))
+        let byRule := located.all (fun (p, e, _) => insideSpec o.res p == e)
+        let isUnion := located.all (fun (p, _, un) => insideSpec o.res p == un)
+        " fill=" ++ f.str ++ (if byRule then " region=fill-rule" else " region=other") ++
+          (if isUnion then " covers=union" else " covers=less-than-union") ++
+          (if rabs (mpArea o.res - mpArea o.fold) > 2 * tolA then " vs-fold=differs" else " vs-fold=same")
+    reply same "PASS" (tagsBase ++ cls)
+      ("subj " ++ toString (subjM.map ptsStr) ++ " fill " ++ (unaryFillRule rs).str ++ " res " ++ polysStr modelRes)
+      ("subj " ++ toString (o.subj.map ptsStr) ++ " res " ++ polysStr o.res)
+
 def handleUnary (inp out : List String) : String :=
   let pin : P (Rat × List (Geom × List Poly)) := do
     let u ← rat
@@ -210,8 +247,8 @@ def handleUnary (inp out : List String) : String :=
     -- every boppable a valid non-empty Polygon / MultiPolygon
     if !(bs.all (fun (g, ps) => validGeom g && ps.all polyValid)) then skip "invalid-operand" else
     let ms := bs.flatMap (·.2)
-    if !consistentlyWound ms then skip "not-consistently-wound" else
     if u ≤ 0 then "ERR unit" else
+    if !consistentlyWound ms then handleUnaryMixed u bs ms out else
     let rs := ms.flatMap Poly.rings
     let tagsBase := "n=" ++ toString ms.length ++ (match bs with | (g, _) :: _ => " of=" ++ kindTag g | [] => "") ++
       (match ms with | m :: _ => (if dirSign m.ext < 0 then " cw" else " ccw") | [] => "") ++
